@@ -44,6 +44,10 @@ def run_case(args):
     n = r.choice([64, 96, 97, 128, 129, 160] if ctx.tier == "thorough" else [64, 65, 96, 97, 128])       # even and odd meshes
     steps = int(round(r.loguniform(20, 1200 if ctx.tier == "thorough" else 400)))
     sinus = (i % 3 == 2)
+    if i % 16 == 5:
+        # scale: a mesh beyond 512 cells, few steps per period (each step is a million cells)
+        n = r.choice([513, 640, 1030])
+        steps = int(round(r.uniform(20, 40)))
     o = dict(GridSize=n, StepsPerTs=steps, rotations=1.0, outstep=1, DampingTime=0.0, VacuumGap=0,
              InterpolationPoints=r.choice([2, 3, 4]), RenormalizeCharge=r.choice([-1, 0]))
     if r.chance(0.6):
